@@ -116,4 +116,13 @@ def nsiBetweennessEnum (n : Nat) (a : Adj) (w : Nat → Rat) (d : DistFn) (isSrc
       w t * sumToQ n fun s => if s != v && (d t s).isSome then
         excess w isSrc s * (sigmaThruPaths n a w d t v s / sigmaPaths n a w d t s) else 0).sum) / w v
 
+/-- the published definition of interregional betweenness by counting:
+`Σ_{t ∈ T, t ≠ v} Σ_{s ∈ S, s ≠ v} #(shortest t–s paths through v) / #(shortest t–s paths)`
+(pairs without a connecting path contribute nothing; a target listed twice counts twice) -/
+def interregionalCount (n : Nat) (a : Adj) (d : DistFn) (S T : List Nat) (v : Nat) : Rat :=
+  (T.map fun t => if v = t then 0 else
+    sumToQ n fun s => if s != v && S.contains s && (d t s).isSome then
+      ((((shortestPaths n a d t s).filter fun p => p.contains v).length : Nat) : Rat)
+        / (((shortestPaths n a d t s).length : Nat) : Rat) else 0).sum
+
 end Pyunicorn.NetBetw
